@@ -163,6 +163,9 @@ static void mk_value (int i, int kind)
     case KARRM:
       {
         array_t *a = allocate_empty_array (n);
+        __CPROVER_assume (IN.ref[i] >= 1 && IN.ref[i] <= 2);
+        if (n > 0) a->ref = (unsigned short) IN.ref[i];      /* 1 = this stack slot is the only holder, 2 = one more holder elsewhere */
+        else IN.ref[i] = 0;
         for (k = 0; k < CAP; k++) if (k < n) { a->item[k].type = T_NUMBER; a->item[k].subtype = 0; a->item[k].u.number = IN.elem[i * 4 + k]; }
         garr[i] = a; gkind[i] = KARR;
         sp++; sp->type = T_ARRAY; sp->subtype = 0; sp->u.arr = a;
